@@ -715,6 +715,9 @@ func (c hCfg) proto(idpBase string) *oidcv1.OIDCConfig {
 		CookieNamePrefix:   c.Prefix,
 		IdToken:            &oidcv1.TokenConfig{Header: c.IDHeader, Preamble: c.IDPreamble},
 		JwksConfig:         &oidcv1.OIDCConfig_Jwks{Jwks: "unused-by-the-scripted-key-source"},
+		// as in a deployment: the store is built from these two values (by the factory), and the handler sees them too
+		AbsoluteSessionTimeout: uint32(c.Abs / time.Second),
+		IdleSessionTimeout:     uint32(c.Idle / time.Second),
 	}
 	if c.Access {
 		o.AccessToken = &oidcv1.TokenConfig{Header: c.AccHeader, Preamble: c.AccPreamble}
